@@ -14,11 +14,11 @@ theorem AccSame_of_eq {X X' : State} (h : ∀ id, entOf X' id = entOf X id) : Ac
 theorem AccSame_of_none {X X' : State} (h : ∀ id, entOf X' id = none) : AccSame X X' :=
   fun i ex' he => by rw [h] at he; cases he
 
-/-- `Dir X Y` survives any change of `X` that emits nothing, only shrinks the pending queue, keeps
+/-- `DirInv X Y` survives any change of `X` that emits nothing, only shrinks the pending queue, keeps
 the accepted-write histories, and only takes frames out of `X`'s inbound queue -/
-theorem dir_emitter_quiet {X X' Y : State} (h : Dir X Y) (hn : X'.nextId = X.nextId)
+theorem dir_emitter_quiet {X X' Y : State} (h : DirInv X Y) (hn : X'.nextId = X.nextId)
     (he : X'.emitted = X.emitted) (hp : ∀ f, f ∈ X'.pendQ → f ∈ X.pendQ)
-    (hin : ∀ f, f ∈ inFrames X' → f ∈ inFrames X) (hacc : AccSame X X') : Dir X' Y := by
+    (hin : ∀ f, f ∈ inFrames X' → f ∈ inFrames X) (hacc : AccSame X X') : DirInv X' Y := by
   have hch : chan X' Y = chan X Y := by unfold chan; rw [he]
   have hall : ∀ f, f ∈ chan X' Y ++ X'.pendQ → f ∈ chan X Y ++ X.pendQ := by
     intro f hf
@@ -54,7 +54,7 @@ theorem dir_emitter_quiet {X X' Y : State} (h : Dir X Y) (hn : X'.nextId = X.nex
     obtain ⟨ex, h1, _⟩ := hacc id e he'
     rw [hn]; exact h.k10 id ex h1 hr
 
-/-- what survives, in `Dir Y X`, when the receiver `X` takes the head frame `f` out of its queue:
+/-- what survives, in `DirInv Y X`, when the receiver `X` takes the head frame `f` out of its queue:
 everything that does not mention `X`'s entries -/
 structure DirTail (Y X' : State) (X : State) : Prop where
   k0 : ∀ id, Frame.opn id ∈ chan Y X' → id.role = .dialer
@@ -70,7 +70,7 @@ theorem chan_pop {X X' Y : State} {f : Frame} (hi : inFrames X = f :: inFrames X
     chan Y X = f :: chan Y X' := by
   unfold chan; rw [hi]; rfl
 
-theorem dir_tail_pop {X X' Y : State} {f : Frame} (h : Dir Y X) (hn : X'.nextId = X.nextId)
+theorem dir_tail_pop {X X' Y : State} {f : Frame} (h : DirInv Y X) (hn : X'.nextId = X.nextId)
     (hi : inFrames X = f :: inFrames X') : DirTail Y X' X := by
   have hch := chan_pop (Y := Y) hi
   have hk3 := h.k3
@@ -88,7 +88,7 @@ theorem dir_tail_pop {X X' Y : State} {f : Frame} (h : Dir Y X) (hn : X'.nextId 
     exact dataOf_cons_ne id f _ (fun d e' => hk3.1 id hid (by rw [e']; rfl))
   · intro g hg hr; rw [hn]; exact h.k8 g (hsub g hg) hr
 
-theorem dir_tail_same {X X' Y : State} (h : Dir Y X) (hn : X'.nextId = X.nextId)
+theorem dir_tail_same {X X' Y : State} (h : DirInv Y X) (hn : X'.nextId = X.nextId)
     (hi : inFrames X' = inFrames X) : DirTail Y X' X := by
   have hch : chan Y X' = chan Y X := by unfold chan; rw [hi]
   refine { k0 := ?_, k1 := ?_, k3 := ?_, k4 := ?_, k8 := ?_, k9 := h.k9, k10 := h.k10, sub := ?_ }
@@ -99,14 +99,14 @@ theorem dir_tail_same {X X' Y : State} (h : Dir Y X) (hn : X'.nextId = X.nextId)
   · intro g hg hr; rw [hch] at hg; rw [hn]; exact h.k8 g hg hr
   · intro g hg; rw [hch] at hg; exact hg
 
-/-- assemble `Dir Y X'` from the tail part and the clauses that mention `X'`'s entries -/
+/-- assemble `DirInv Y X'` from the tail part and the clauses that mention `X'`'s entries -/
 theorem dir_of_tail {X X' Y : State} (t : DirTail Y X' X)
     (k2 : ∀ id e, entOf X' id = some e → id.role = .listener → id.num < Y.nextId)
     (k5 : ∀ i ex ey, entOf Y i = some ex → entOf X' i.mirror = some ey →
         (ey.ro = true → ex.acc = ey.rx ++ dataOf i (chan Y X')) ∧ ey.rx <+: ex.acc)
     (k6 : ∀ id, Frame.opn id ∈ chan X' Y →
         (∀ f, f ∈ chan Y X' ++ Y.pendQ → f.id ≠ id.mirror) ∧ (∀ e, entOf X' id = some e → e.rx = []))
-    (k7 : ∀ id, Frame.opn id ∈ chan Y X' → entOf X' id.mirror = none) : Dir Y X' :=
+    (k7 : ∀ id, Frame.opn id ∈ chan Y X' → entOf X' id.mirror = none) : DirInv Y X' :=
   { k0 := t.k0, k1 := t.k1, k2 := k2, k3 := t.k3, k4 := t.k4, k5 := k5, k6 := k6, k7 := k7, k8 := t.k8,
     k9 := t.k9, k10 := t.k10 }
 
